@@ -450,6 +450,19 @@ def run_cfg(chk, facts, cfg):
                         probs.append('data of sample %s is folded into the wrong component' % comp.upper())
                     rec['_comp'] = (comp, c, apath, hav)
                     chk.analysed['loops'] += 1
+                    # frame condition: the component after the call is the component before it plus the fold
+                    if not ret_state:
+                        for pth in paths:
+                            fin = pth.effects.get('self') if pth.is_ret() else None
+                            if fin is None or unwrap_ok(pth.ret) is None:
+                                continue
+                            comp_fin = fin[3][roles[0] if comp == 'a' else roles[1]]
+                            comp_ini = sa if comp == 'a' else sb
+                            # other loops of the same call may have havocked this component too: compare through the last record only
+                            if rec is recs[-1] or len(recs) == 1 or comp_fin == hav:
+                                fr_ = frame_ok(comp_ini, comp_fin, rec, c, apath, hav)
+                                if fr_:
+                                    probs.append(fr_)
             if ret_state and not probs:
                 # from_iter: result state = Unpaired(fold a, fold b)
                 oks = [p for p in paths if p.is_ret() and unwrap_ok(p.ret) is not None]
